@@ -632,9 +632,106 @@ fn judge_transport_cli(commands: &[String], split: usize, sep_arg: bool, sep_std
     obs
 }
 
+/// Remove what the line editor draws (erase line, column 1, prompt, the text typed so far, column
+/// N) from the debugger's output on a terminal session; what is left is what the commands printed.
+fn strip_prompt_drawing(err: &[u8]) -> Vec<u8> {
+    let mark = b"\x1b[2K\x1b[1Glace~ ";
+    let mut out = Vec::new();
+    let mut i = 0;
+    while i < err.len() {
+        if err[i..].starts_with(mark) {
+            // ... up to the cursor placement `ESC [ <digits> G`
+            let mut j = i + mark.len();
+            while j < err.len() && err[j] != 0x1b {
+                j += 1;
+            }
+            let mut k = j + 2;
+            while k < err.len() && err[k].is_ascii_digit() {
+                k += 1;
+            }
+            if j + 1 < err.len() && err[j + 1] == b'[' && k < err.len() && err[k] == b'G' {
+                i = k + 1;
+                continue;
+            }
+        }
+        out.push(err[i]);
+        i += 1;
+    }
+    out
+}
+
+/// The script typed at a terminal (the part after `split`; the part before it in `--command`):
+/// commands joined by `;` on one line, entered one per line, or with a `;` left at the end of a
+/// line. It must mean what it means when it is all in `--command`.
+fn judge_transport_tty(commands: &[String], split: usize, sep_arg: bool, mixed: bool) -> Obs {
+    let mut obs = Obs::default();
+    obs.key = hash_of(&("tty", commands, split, sep_arg, mixed));
+    let split = split.min(commands.len());
+    obs.nontrivial = true;
+    obs.label("transport-typed-at-a-terminal");
+    let arg_part = commands[..split].join(if sep_arg { ";" } else { "\n" });
+    // what is typed: each command, then `;`, Enter, `;` Enter or ` ; `; at the end `exit` Enter
+    let mut typed_text = String::new();
+    for (i, c) in commands[split..].iter().enumerate() {
+        typed_text.push_str(c);
+        let how = if mixed { hash_of(&(commands, i, "sep")) % 5 } else { 1 };
+        typed_text.push_str(match how {
+            0 => ";",
+            1 | 2 => "\r",
+            3 => ";\r",
+            _ => " ; ",
+        });
+    }
+    typed_text.push_str("exit\r");
+    if typed_text.contains(";\r") {
+        obs.label("typed-line-ends-with-a-semicolon");
+    }
+    obs.show = Some(format!("lace debug p.asm --minimal --command {arg_part:?}, then typed at the terminal: {typed_text:?}"));
+    let dir = crate::cli::TempDir::new();
+    dir.write("p.asm", NAME_PROGRAM.as_bytes());
+    let cache = dir.path().join("cache");
+    std::fs::create_dir_all(&cache).unwrap();
+    let cache_s = cache.to_string_lossy().to_string();
+    let all = format!("{}\nexit", commands.join("\n"));
+    let reference = crate::cli::lace(&["debug", "p.asm", "--minimal", "--command", all.as_str()], dir.path(), &[], false, 60);
+    let keys: Vec<Vec<u8>> = typed_text.chars().map(|c| c.to_string().into_bytes()).collect();
+    let envs = [("XDG_CACHE_HOME", cache_s.as_str()), ("HOME", cache_s.as_str())];
+    let (variant, ntyped) = if split == 0 {
+        crate::cli::lace_tty_env(&["debug", "p.asm", "--minimal"], dir.path(), &keys, false, 60, &envs)
+    } else {
+        crate::cli::lace_tty_env(&["debug", "p.asm", "--minimal", "--command", arg_part.as_str()], dir.path(), &keys, false, 60, &envs)
+    };
+    if reference.timed_out || variant.timed_out {
+        obs.excluded = Some("watchdog");
+        return obs;
+    }
+    let rti = |r: &crate::cli::Run| String::from_utf8_lossy(&r.stderr).contains("RTI");
+    if rti(&reference) || rti(&variant) {
+        obs.excluded = Some("rti");
+        return obs;
+    }
+    let said = strip_prompt_drawing(&variant.stderr);
+    // (the editor ends every entered line with a line feed on standard output; the program prints
+    // nothing itself: compare the non-empty lines)
+    let lines = |b: &[u8]| String::from_utf8_lossy(b).lines().filter(|l| !l.is_empty()).map(|l| l.to_string()).collect::<Vec<_>>();
+    if reference.panicked() || variant.panicked() {
+        obs.set_fail("C14:debugger-crashes", format!("reference: {}\ntyped ({ntyped} of {} keys): exit {:?} signal {:?} {}", reference.brief(), keys.len(), variant.code, variant.signal, clip(&String::from_utf8_lossy(&said))));
+    } else if reference.code != variant.code || lines(&reference.stdout) != lines(&variant.stdout) || reference.stderr != said {
+        obs.set_fail(
+            "C14:transport-changes-meaning",
+            format!(
+                "the same script behaves differently when it is typed at a terminal ({ntyped} of {} keys were typed)\ntyped: exit {:?}, program output {:?}, debugger output (prompt drawing removed) {:?}\nall in --command: {}",
+                keys.len(), variant.code, clip(&String::from_utf8_lossy(&variant.stdout)), clip(&String::from_utf8_lossy(&said)), reference.brief()
+            ),
+        );
+    }
+    obs
+}
+
 pub fn judge_case(c: &Case) -> Obs {
     match c {
         Case::Transport { commands, split, sep_arg, sep_stdin, decorate } if *decorate == 255 => judge_transport_cli(commands, *split, *sep_arg, *sep_stdin),
+        Case::Transport { commands, split, sep_arg, sep_stdin, decorate } if *decorate == 254 => judge_transport_tty(commands, *split, *sep_arg, *sep_stdin),
         Case::Tokens { tokens, with_break } => {
             let mut o = judge_tokens(tokens, *with_break);
             o.nontrivial = tokens.iter().any(|t| token_nontrivial(t));
@@ -678,7 +775,7 @@ impl Prop for C14 {
         "(a) ALL argument strings of length <= 4 (quick) / <= 5 (thorough) over the alphabet {+ - # x o b 0 1 8 a g ^ r _}, each used as `move r1 <t>` (value) and `goto <t>` (location), and up to length 3 also as `break add <t>`, against a program at origin 0 that defines 35 labels colliding with tricky spellings (xg, b8, o, x, r8, R00, _, ...); plus generated longer tokens: numbers at the i16/u16/i32 edges (and beyond 2^32) in every radix and sign position with leading zeros, label+-offset, ^offset, multi-byte characters. \
          Oracle RefCmd (doc comment of the integer parser, NaiveType table, help.txt): value accepted <=> documented integer in [-32768, 65535], R1 = v mod 2^16; location => PC / breakpoint list equals the resolved address; everything else => an error is reported and nothing changes; never a panic. \
          (b) every command name, alias and listed misspelling (one- and two-word forms) in 3 random letter cases: alias => transcript, output, exit and final state identical to the canonical name in a fixed scenario; misspelling => CommandError and no effect. `print` without argument = `print ^`. \
-         (c) generated scripts of 1-8 commands delivered through --command, through stdin, or split at every point, with `;` or newline as separator, empty commands and surrounding blanks: stdout, stderr, exit status and final state identical to the plain delivery (in-process through the real CommandReader, plus a sample through the real binary with a pipe as stdin). \
+         (c) generated scripts of 1-8 commands delivered through --command, through stdin, or split at every point, with `;` or newline as separator, empty commands and surrounding blanks: stdout, stderr, exit status and final state identical to the plain delivery (in-process through the real CommandReader, plus a sample through the real binary with a pipe as stdin, plus a sample typed key by key at a pseudo-terminal - one command per line, `;`-joined on a line, or with a `;` left at the end of a line - where the debugger's output with the prompt drawing removed must equal that of the plain delivery). \
          (d) scripts on standard input in which one line contains bytes that are not UTF-8 (lone / truncated / surrogate sequences at the start, in the middle or at the end of a command; a character of the command, or a `;` / newline joining two commands, spelled as an over-long 2-, 3- or 4-byte sequence): no panic, and the session equals the one with an invalid textual line in its place. \
          (e) through the real binary: runs of 1,000 / 30,000 / 70,000 (thorough: 300,000) repetitions of one command that is rejected, blank or inspection-only (14 units), one per line or `;`-joined, on standard input or in `--command`, followed by a short tail: no crash, and exit status, program output and the tail's debugger output equal those of the tail alone (newline-separated: the whole debugger output is the unit's output repeated). Non-trivial: token with a sign/prefix and a digit; name variant; script split strictly inside. Distinct = token batch / name / (script, split)."
     }
@@ -758,7 +855,7 @@ impl Prop for C14 {
         let strat = (prop::collection::vec(prop::sample::select(TRANSPORT_POOL.to_vec()), 1..9), any::<u16>(), any::<bool>(), any::<bool>(), any::<u8>()).prop_map(|(cmds, split, sep_arg, sep_stdin, decorate)| {
             let commands: Vec<String> = cmds.iter().map(|s| s.to_string()).collect();
             let split = (split as usize * (commands.len() + 1)) >> 16;
-            Case::Transport { commands, split, sep_arg, sep_stdin, decorate: decorate % 255 }
+            Case::Transport { commands, split, sep_arg, sep_stdin, decorate: decorate % 254 }
         });
         drive(ctx, rep, "transport", strat, k, &mut |c: &Case| judge_case(c));
         // lines that are not UTF-8, on standard input
@@ -773,6 +870,14 @@ impl Prop for C14 {
             Case::Transport { commands, split, sep_arg, sep_stdin, decorate: 255 }
         });
         drive(ctx, rep, "transport-cli", strat, k, &mut |c: &Case| judge_case(c));
+        // ... and typed at a terminal (decorate == 254)
+        let k = ctx.share(ctx.tier.pick(240, 3000));
+        let strat = (prop::collection::vec(prop::sample::select(TRANSPORT_POOL.to_vec()), 1..7), any::<u16>(), any::<bool>(), prop::bool::weighted(0.75)).prop_map(|(cmds, split, sep_arg, sep_stdin)| {
+            let commands: Vec<String> = cmds.iter().map(|s| s.to_string()).collect();
+            let split = ((split as usize * (commands.len() + 1)) >> 16).min(commands.len().saturating_sub(1));
+            Case::Transport { commands, split, sep_arg, sep_stdin, decorate: 254 }
+        });
+        drive(ctx, rep, "transport-tty", strat, k, &mut |c: &Case| judge_case(c));
         std::env::remove_var("VERIF_MAX_SHRINK");
         // (e) long runs of one command, through the real binary (its real main-thread stack)
         let counts: &[u32] = ctx.tier.pick(&[1000, 30_000, 70_000][..], &[1000, 30_000, 70_000, 300_000][..]);
@@ -805,7 +910,7 @@ impl Prop for C14 {
         let transport = (prop::collection::vec(prop::sample::select(TRANSPORT_POOL.to_vec()), 1..9), any::<u16>(), any::<bool>(), any::<bool>(), any::<u8>()).prop_map(|(cmds, split, sep_arg, sep_stdin, decorate)| {
             let commands: Vec<String> = cmds.iter().map(|s| s.to_string()).collect();
             let split = (split as usize * (commands.len() + 1)) >> 16;
-            Case::Transport { commands, split, sep_arg, sep_stdin, decorate: decorate % 255 }
+            Case::Transport { commands, split, sep_arg, sep_stdin, decorate: decorate % 254 }
         });
         Some(crate::fuzzmode::jv(crate::pick![6 => tokens, 2 => transport, 1 => bad_bytes_cases()]))
     }
